@@ -189,10 +189,12 @@ func (sc *Scheduler) Schedule(ctx context.Context, g *ExecutionGraph, done chan 
 							node.setRetriedAt(time.Now())
 							node.setStatus(NodeStatusNone)
 						default:
-							// finish the node
+							// finish the node; record the failure of the run
+							// first, so that the run is never seen with all of
+							// its steps finished and no error.
+							sc.setLastError(execErr)
 							node.setStatus(NodeStatusError)
 							node.setErr(execErr)
-							sc.setLastError(execErr)
 						}
 					}
 					if node.State().Status != NodeStatusCancel {
